@@ -409,6 +409,30 @@ var c01FrontOaPinned = []frontOaPinned{
 	{"oapinfracbound", `{"R": {"type": "object", "additionalProperties": false, "properties": {
 	    "n": {"type": "integer", "format": "int64", "minimum": 0.5}, "m": {"type": "integer", "format": "int64", "maximum": -0.5}}}}`, "R",
 		[]string{`{"n": 0}`, `{"n": 1}`, `{"m": 0}`, `{"m": -1}`}},
+	// `pattern` values around tools.RegexMatchesConstantString (see pinpatterns in c01_front.go)
+	{"oapinpatterns", `{"R": {"type": "object", "additionalProperties": false, "properties": {
+	    "lit": {"type": "string", "pattern": "^math$"},
+	    "alt": {"type": "string", "pattern": "^instant|range$"},
+	    "altg": {"type": "string", "pattern": "^(a|b)$"},
+	    "dot": {"type": "string", "pattern": "^a.c$"},
+	    "plus": {"type": "string", "pattern": "^ab+$"},
+	    "star": {"type": "string", "pattern": "^ab*$"},
+	    "opt": {"type": "string", "pattern": "^ab?$"},
+	    "cls": {"type": "string", "pattern": "^[a-z]$"},
+	    "dig": {"type": "string", "pattern": "^\\d$"},
+	    "rep": {"type": "string", "pattern": "^a{2}$"},
+	    "ul": {"type": "string", "pattern": "math"},
+	    "ula": {"type": "string", "pattern": "^math"},
+	    "ulz": {"type": "string", "pattern": "math$"},
+	    "escd": {"type": "string", "pattern": "^a\\.b$"},
+	    "escp": {"type": "string", "pattern": "^a\\|b$"},
+	    "dash": {"type": "string", "pattern": "^a-b_c$"},
+	    "grp": {"type": "string", "pattern": "^(ab)$"},
+	    "rb": {"type": "string", "pattern": "^a]b$"},
+	    "rc": {"type": "string", "pattern": "^a}b$"}}}}`, "R",
+		[]string{`{"lit":"math","alt":"instant","altg":"a","dot":"abc","plus":"abb","star":"a","opt":"ab","cls":"q","dig":"7","rep":"aa","ul":"xmathx","ula":"maths","ulz":"xmath","escd":"a.b","escp":"a|b","dash":"a-b_c"}`,
+			`{"lit":"maths"}`, `{"alt":"range"}`, `{"alt":"instant|range"}`, `{"alt":"x"}`, `{"altg":"b"}`, `{"altg":"(a|b)"}`, `{"dot":"a.c"}`, `{"dot":"ac"}`,
+			`{"plus":"a"}`, `{"star":"abbb"}`, `{"opt":"abb"}`, `{"cls":"Q"}`, `{"dig":"x"}`, `{"rep":"a"}`, `{"ul":"no"}`, `{"escd":"axb"}`, `{"escp":"a"}`, `{"dash":"a-b_c"}`, `{"dash":"x"}`}},
 	// witness of C01_openapi_parser_sound_counterexample (lean/Cog/Props/C01.lean: `OA.cxComps`)
 	{"oapinnullbool", `{"R": {"type": "boolean", "nullable": true}}`, "R", []string{`null`, `true`, `0`}},
 	{"oapinflat", `{"R": {"type": "object", "additionalProperties": false, "required": ["code", "n"], "properties": {
